@@ -169,6 +169,10 @@ func ValidatePattern(name, val, p string) error {
 // "{6ba7b810-9dad-11d1-80b4-00c04fd430c8}",
 // "urn:uuid:6ba7b810-9dad-11d1-80b4-00c04fd430c8"
 func validateUUID(uuid string) error {
+	// Parse does not check the enclosing characters of the 38 character form.
+	if err := googleuuid.Validate(uuid); err != nil {
+		return fmt.Errorf("uuid: %s: %w", uuid, err)
+	}
 	u, err := googleuuid.Parse(uuid)
 	if err != nil {
 		return fmt.Errorf("uuid: %s: %w", uuid, err)
